@@ -1,7 +1,7 @@
 """Common runner for a property check: build jobs, run, triage, replay, evidence, exit code."""
 import os, sys, time, json, shutil, re, subprocess, traceback
 from . import driver
-from .driver import VERIF, REPO, ToolTrouble, run_jobs, trace_for, trace_inputs, write_evidence, ARITH_ASSUMPTIONS
+from .driver import VERIF, OUT, REPO, ToolTrouble, run_jobs, trace_for, trace_inputs, write_evidence, ARITH_ASSUMPTIONS
 
 
 def load_known(prop):
@@ -58,10 +58,10 @@ def main(mod, argv=None):
         only = argv[argv.index('--only') + 1]
     keep = '--keep' in argv or os.environ.get('XV_KEEP')
     t0 = time.time()
-    workdir = os.path.join(VERIF, 'work', '%s_%d' % (prop, os.getpid()))
+    workdir = os.path.join(OUT, 'work', '%s_%d' % (prop, os.getpid()))
     shutil.rmtree(workdir, ignore_errors=True)
     os.makedirs(workdir)
-    ev_path = os.path.join(VERIF, 'evidence', prop + '.json')
+    ev_path = os.path.join(OUT, 'evidence', prop + '.json')
     rc = 2
     try:
         ctx = mod.build(tier, workdir, seed)
@@ -101,7 +101,7 @@ def main(mod, argv=None):
         known = load_known(prop)
         violations = 0
         known_hits = []
-        os.makedirs(os.path.join(VERIF, 'replays'), exist_ok=True)
+        os.makedirs(os.path.join(OUT, 'replays'), exist_ok=True)
         for j, r in zip(jobs, results):
             if j.kind == 'negative' or not r['failed']:
                 continue
@@ -118,7 +118,7 @@ def main(mod, argv=None):
             if not unk:
                 continue
             violations += 1
-            rp = os.path.join(VERIF, 'replays', '%s_%s.txt' % (prop, j.name))
+            rp = os.path.join(OUT, 'replays', '%s_%s.txt' % (prop, j.name))
             tail = report_violation(mod, ctx, j, r, unk, rp, workdir)
             print('VIOLATION property=%s replay=%s%s' % (prop, rp, tail), flush=True)
         seen = set()
@@ -157,7 +157,7 @@ def main(mod, argv=None):
         if not keep:
             shutil.rmtree(workdir, ignore_errors=True)
             try:
-                os.rmdir(os.path.join(VERIF, 'work'))
+                os.rmdir(os.path.join(OUT, 'work'))
             except OSError:
                 pass
     return rc
